@@ -27,7 +27,8 @@ type (
 		HiVar string `json:"hiv,omitempty"`
 	}
 	HostPat struct {
-		IP    string `json:"ip"`
+		IP    string `json:"ip,omitempty"`
+		Var   string `json:"v,omitempty"` // instead of IP: host of a sub-query stream, "sub:chost" / "sub:shost"
 		Masks []int  `json:"m,omitempty"` // "/n" suffixes
 	}
 	// Node is a node of the surface AST.
@@ -46,6 +47,10 @@ type (
 		Tags   []string  `json:"g,omitempty"`
 		Regex  string    `json:"re,omitempty"`
 		Conv   string    `json:"cv,omitempty"`
+		// Sub: the term is a filter of the named sub-query (`@sub:key:value`), it speaks about the
+		// sub-query's stream. Terms of the main query refer to that stream through variables
+		// `@sub:attr@` (Range.LoVar/HiVar = "sub:attr", HostPat.Var, Protos entry "@sub:protocol@").
+		Sub string `json:"sq,omitempty"`
 	}
 	// Tag is a tag table entry: truth for certain streams from Matches, for uncertain ones from Def.
 	Tag struct {
@@ -110,6 +115,9 @@ func (n *Node) valueText() string {
 	case "chost", "shost", "host":
 		for _, h := range n.Hosts {
 			s := h.IP
+			if h.Var != "" {
+				s = "@" + h.Var + "@"
+			}
 			for _, m := range h.Masks {
 				s += fmt.Sprintf("/%d", m)
 			}
@@ -134,6 +142,9 @@ func (n *Node) Render() string {
 	switch n.Op {
 	case "term":
 		k := n.Key
+		if n.Sub != "" {
+			k = "@" + n.Sub + ":" + k
+		}
 		if n.Conv != "" {
 			k += "." + n.Conv
 		}
@@ -183,10 +194,12 @@ type Env struct {
 	// ConvNames lists the converters that exist (a data filter without converter name searches the
 	// raw payload and the output of every converter that has cached output for the stream).
 	ConvNames []string
-	reCache   map[string]*binaryregexp.Regexp
-	Err       error // first evaluation problem (unknown tag, bad regex): the case is then skipped
-	ChainErr  int   // != 0: some chain uses an undefined variable / binds a variable twice (the engine reports an error)
-	depth     int
+	// Sub binds sub-query names to the stream they currently stand for (see EvalQuery)
+	Sub      map[string]*StreamV
+	reCache  map[string]*binaryregexp.Regexp
+	Err      error // first evaluation problem (unknown tag, bad regex): the case is then skipped
+	ChainErr int   // != 0: some chain uses an undefined variable / binds a variable twice (the engine reports an error)
+	depth    int
 }
 
 func attr(s *StreamV, name string) int64 {
@@ -210,29 +223,40 @@ func attr(s *StreamV, name string) int64 {
 }
 
 // bound resolves one side of a range for a stream; unit = 1 for numbers, 1000 for times (ms per second)
-func bound(s *StreamV, v *int64, name string, unit int64) (int64, bool) {
+func (e *Env) bound(s *StreamV, v *int64, name string, unit int64) (int64, bool) {
 	if v == nil {
 		return 0, false
 	}
 	if name == "" {
 		return *v * unit, true
 	}
+	if i := strings.Index(name, ":"); i >= 0 {
+		// attribute of the stream a sub-query stands for
+		t := e.Sub[name[:i]]
+		if t == nil {
+			if e.Err == nil {
+				e.Err = fmt.Errorf("unbound sub-query %q", name[:i])
+			}
+			return 0, true
+		}
+		return attr(t, name[i+1:]) + *v*unit, true
+	}
 	return attr(s, name) + *v*unit, true
 }
 
-func inRangeOf(s *StreamV, r Range, v, unit int64) bool {
-	if lo, ok := bound(s, r.Lo, r.LoVar, unit); ok && v < lo {
+func (e *Env) inRangeOf(s *StreamV, r Range, v, unit int64) bool {
+	if lo, ok := e.bound(s, r.Lo, r.LoVar, unit); ok && v < lo {
 		return false
 	}
-	if hi, ok := bound(s, r.Hi, r.HiVar, unit); ok && v > hi {
+	if hi, ok := e.bound(s, r.Hi, r.HiVar, unit); ok && v > hi {
 		return false
 	}
 	return true
 }
 
-func inAnyOf(s *StreamV, rs []Range, v int64) bool {
+func (e *Env) inAnyOf(s *StreamV, rs []Range, v int64) bool {
 	for _, r := range rs {
-		if inRangeOf(s, r, v, 1) {
+		if e.inRangeOf(s, r, v, 1) {
 			return true
 		}
 	}
@@ -264,8 +288,23 @@ func MaskBits(masks []int, nbits int) []bool {
 	return m
 }
 
-func hostMatches(p HostPat, host string) bool {
-	a, _ := netip.ParseAddr(p.IP)
+func (e *Env) hostMatches(p HostPat, host string) bool {
+	ip := p.IP
+	if p.Var != "" {
+		i := strings.Index(p.Var, ":")
+		t := e.Sub[p.Var[:i]]
+		if t == nil {
+			if e.Err == nil {
+				e.Err = fmt.Errorf("unbound sub-query in %q", p.Var)
+			}
+			return false
+		}
+		ip = t.CHost
+		if p.Var[i+1:] == "shost" {
+			ip = t.SHost
+		}
+	}
+	a, _ := netip.ParseAddr(ip)
 	h, _ := netip.ParseAddr(host)
 	ab, hb := a.AsSlice(), h.AsSlice()
 	if len(ab) != len(hb) {
@@ -497,27 +536,37 @@ func (e *Env) Eval(n *Node, s *StreamV) bool {
 		}
 		return false
 	}
+	if n.Sub != "" {
+		t := e.Sub[n.Sub]
+		if t == nil {
+			if e.Err == nil {
+				e.Err = fmt.Errorf("unbound sub-query %q", n.Sub)
+			}
+			return false
+		}
+		s = t
+	}
 	switch n.Key {
 	case "id":
-		return inAnyOf(s, n.Nums, int64(s.ID))
+		return e.inAnyOf(s, n.Nums, int64(s.ID))
 	case "cport":
-		return inAnyOf(s, n.Nums, int64(s.CPort))
+		return e.inAnyOf(s, n.Nums, int64(s.CPort))
 	case "sport":
-		return inAnyOf(s, n.Nums, int64(s.SPort))
+		return e.inAnyOf(s, n.Nums, int64(s.SPort))
 	case "port":
-		return inAnyOf(s, n.Nums, int64(s.CPort)) || inAnyOf(s, n.Nums, int64(s.SPort))
+		return e.inAnyOf(s, n.Nums, int64(s.CPort)) || e.inAnyOf(s, n.Nums, int64(s.SPort))
 	case "cbytes":
-		return inAnyOf(s, n.Nums, int64(s.CBytes()))
+		return e.inAnyOf(s, n.Nums, int64(s.CBytes()))
 	case "sbytes":
-		return inAnyOf(s, n.Nums, int64(s.SBytes()))
+		return e.inAnyOf(s, n.Nums, int64(s.SBytes()))
 	case "bytes":
-		return inAnyOf(s, n.Nums, int64(s.CBytes())) || inAnyOf(s, n.Nums, int64(s.SBytes()))
+		return e.inAnyOf(s, n.Nums, int64(s.CBytes())) || e.inAnyOf(s, n.Nums, int64(s.SBytes()))
 	case "chost", "shost", "host":
 		for _, p := range n.Hosts {
-			if n.Key != "shost" && hostMatches(p, s.CHost) {
+			if n.Key != "shost" && e.hostMatches(p, s.CHost) {
 				return true
 			}
-			if n.Key != "chost" && hostMatches(p, s.SHost) {
+			if n.Key != "chost" && e.hostMatches(p, s.SHost) {
 				return true
 			}
 		}
@@ -527,6 +576,12 @@ func (e *Env) Eval(n *Node, s *StreamV) bool {
 			if (p == "tcp" && !s.UDP) || (p == "udp" && s.UDP) {
 				return true
 			}
+			if strings.HasPrefix(p, "@") { // "@sub:protocol@": same protocol as the sub-query's stream
+				name := strings.Trim(p, "@")
+				if t := e.Sub[name[:strings.Index(name, ":")]]; t != nil && t.UDP == s.UDP {
+					return true
+				}
+			}
 		}
 		return false
 	case "ftime", "ltime", "time":
@@ -535,15 +590,15 @@ func (e *Env) Eval(n *Node, s *StreamV) bool {
 		for _, r := range n.Times {
 			switch n.Key {
 			case "ftime":
-				if inRangeOf(s, r, s.FTms, 1000) {
+				if e.inRangeOf(s, r, s.FTms, 1000) {
 					return true
 				}
 			case "ltime":
-				if inRangeOf(s, r, s.LTms, 1000) {
+				if e.inRangeOf(s, r, s.LTms, 1000) {
 					return true
 				}
 			default: // any packet in the range: the stream's life span overlaps it
-				if inRangeOf(s, Range{Lo: r.Lo, LoVar: r.LoVar}, s.LTms, 1000) && inRangeOf(s, Range{Hi: r.Hi, HiVar: r.HiVar}, s.FTms, 1000) {
+				if e.inRangeOf(s, Range{Lo: r.Lo, LoVar: r.LoVar}, s.LTms, 1000) && e.inRangeOf(s, Range{Hi: r.Hi, HiVar: r.HiVar}, s.FTms, 1000) {
 					return true
 				}
 			}
@@ -568,6 +623,67 @@ func (e *Env) Eval(n *Node, s *StreamV) bool {
 		e.Err = fmt.Errorf("unknown term %q", n.Key)
 	}
 	return false
+}
+
+// SubQueryNames lists the sub-queries a query speaks about (`@name:` filters and `@name:attr@` variables).
+func (n *Node) SubQueryNames() []string {
+	seen := map[string]bool{}
+	names := []string{}
+	add := func(x string) {
+		if x != "" && !seen[x] {
+			seen[x] = true
+			names = append(names, x)
+		}
+	}
+	pre := func(v string) string {
+		if i := strings.Index(v, ":"); i >= 0 {
+			return v[:i]
+		}
+		return ""
+	}
+	n.Walk(func(k *Node) {
+		add(k.Sub)
+		for _, r := range append(append([]Range(nil), k.Nums...), k.Times...) {
+			add(pre(r.LoVar))
+			add(pre(r.HiVar))
+		}
+		for _, h := range k.Hosts {
+			add(pre(h.Var))
+		}
+		for _, p := range k.Protos {
+			if strings.HasPrefix(p, "@") {
+				add(pre(strings.Trim(p, "@")))
+			}
+		}
+	})
+	return names
+}
+
+// EvalQuery is the plain truth value of a query that may speak about sub-queries: a sub-query name
+// stands for SOME visible stream; the query holds for s iff the names can be bound to visible streams
+// (any, also s itself) such that it holds. Sub-query filters speak about the bound stream, `@name:attr@`
+// is that stream's attribute. The id restriction of a search does not apply to sub-query streams.
+func (e *Env) EvalQuery(n *Node, s *StreamV, visible []*StreamV) bool {
+	names := n.SubQueryNames()
+	if len(names) == 0 {
+		return e.Eval(n, s)
+	}
+	e.Sub = map[string]*StreamV{}
+	defer func() { e.Sub = nil }()
+	var rec func(i int) bool
+	rec = func(i int) bool {
+		if i == len(names) {
+			return e.Eval(n, s)
+		}
+		for _, t := range visible {
+			e.Sub[names[i]] = t
+			if rec(i + 1) {
+				return true
+			}
+		}
+		return false
+	}
+	return rec(0)
 }
 
 func has(xs []uint64, v uint64) bool {
